@@ -504,7 +504,9 @@ impl Driver {
         };
         let pw = self.cfg.password.as_bytes();
         let leak = !pw.is_empty() && b.windows(pw.len()).any(|w| w == pw);
-        json!({"ok":true,"cls":obs::class_name(p.class),"method":p.method,"id":idn,"types":types,
+        // number of attributes an agent must not ignore (RFC 8489 14.5-14.7 ordering rule)
+        let nadm = obs::admitted(&p).iter().filter(|x| **x).count();
+        json!({"ok":true,"cls":obs::class_name(p.class),"method":p.method,"id":idn,"types":types,"nadm":nadm,
                "fp":fp,"fp_last":fp_last,"mi":mi,"sha":sha,"len":b.len(),"user":user,
                "lt":ltd,"leak":leak,"size_ok": b.len() == 20 + p.length})
     }
